@@ -17,10 +17,13 @@ class C15Monitor(object):
         self.kinds = {}
 
     def pre(self, wrap, target):
+        from .. import taps
+
         t = target.temp
-        live = {cn: c.weight for cn, c in target.children.items()}
+        src = taps.entry_view(self.sim, target)
+        live = {cn: c.weight for cn, c in src.children.items()}
         return {"selected": list(t["selected"]) if "selected" in t else None, "weights": _items(t.get("weights")) if "weights" in t else None, "universe": target.universe, "now": target.now, "live": live,
-                "value": target.value, "positions": {cn: getattr(c, "position", 0.0) for cn, c in target.children.items()}, "tv": getattr(wrap.inner, "target_volatility", None)}
+                "value": src.value, "positions": {cn: getattr(c, "position", 0.0) for cn, c in src.children.items()}, "tv": getattr(wrap.inner, "target_volatility", None)}
 
     def v(self, check, detail, **flags):
         self.sim.violation(check, detail, flags)
